@@ -4,7 +4,7 @@
    methods, all fault sets (EINTR at any wait / epoll_ctl, missing system calls), any wait limit. *)
 From Coq Require Import List ZArith Bool Lia.
 From Ivv Require Import Core.Kernel Core.CoreTypes Core.CoreFd Core.CoreModel Core.Monitors Core.GuardMon Core.CoreSpec
-  Core.CoreInv Core.CoreRel Core.CorePhase2Time Core.CoreExamples Base.LeafLink.
+  Core.CoreInv Core.CoreRel Core.CorePhase2Time Core.FairMon Core.FairMonProof Core.CoreExamples Base.LeafLink.
 Import ListNotations.
 Local Open Scope Z_scope.
 
@@ -33,6 +33,15 @@ Theorem C04_timespec_cmp_is_the_code :
   forall as_ an bs bn, ok_nsec an -> ok_nsec bn -> Ivv.Gen.Leaf.timespec_cmp 1 as_ an bs bn = abs_cmp (Some (ns as_ an)) (ns bs bn).
 Proof. exact leaf_timespec_cmp. Qed.
 Print Assumptions C04_timespec_cmp_is_the_code.
+
+(* "invoked exactly once ... unless unregistered first", the dispatch half: every timer that is registered and due when
+   a kernel wait returns is run (or unregistered by another handler) before the loop enters the next wait AND before
+   iv_main returns -- a handler of the same expired batch that calls iv_quit, or tasks that keep the loop from
+   sleeping, do not make the loop abandon or postpone it (monitor Core/FairMon.v, clause 605) *)
+Theorem C04_due_timers_run :
+  forall sc, wf_scenario sc -> fair_fails (run_scenario sc) = [].
+Proof. exact core_fair. Qed.
+Print Assumptions C04_due_timers_run.
 
 (* non-vacuity: a well-formed run on every poll method in which a timer registered 5 ms ahead fires exactly at its
    expiry (loop clock 1005000000 = registration time + 5 ms) after a wait that slept until then *)
